@@ -239,6 +239,27 @@ def catalogue():
     add("Optimizer.add_clamp(position)", "no vertex", "out", lambda: clamp_at([0.5, 0.5, 0.5]))
     add("Optimizer.add_clamp(position)", "second clamp on the vertex", "out", lambda: clamp_at([1, 0, 0], True))
 
+    # the same after the vertex was moved (the optimizer was made before): "matches a vertex" means where the vertex IS
+    def clamp_after_move(p):
+        m = mesh2()
+        opt = cb.MeshOptimizer(m, report=False)
+        v = [x for x in m.vertices if np.allclose(x.position, [1, 0, 0])][0]
+        v.move_to([1.3, 0.1, 0.05])
+        opt.add_clamp(cb.FreeClamp(p))
+
+    add("Optimizer.add_clamp(position) after a move", "where the vertex is now", "in", lambda: clamp_after_move([1.3, 0.1, 0.05]))
+    add("Optimizer.add_clamp(position) after a move", "where the vertex was", "out", lambda: clamp_after_move([1, 0, 0]))
+
+    def link_after_move(leader, follower):
+        m = mesh2()
+        opt = cb.MeshOptimizer(m, report=False)
+        v = [x for x in m.vertices if np.allclose(x.position, [1, 0, 0])][0]
+        v.move_to([1.3, 0.1, 0.05])
+        opt.add_link(cb.TranslationLink(leader, follower))
+
+    add("Optimizer.add_link(points) after a move", "leader where the vertex is now", "in", lambda: link_after_move([1.3, 0.1, 0.05], [1, 1, 0]))
+    add("Optimizer.add_link(points) after a move", "leader where the vertex was", "out", lambda: link_after_move([1, 0, 0], [1, 1, 0]))
+
     def link(leader, follower):
         opt = cb.MeshOptimizer(mesh2(), report=False)
         opt.add_link(cb.TranslationLink(leader, follower))
